@@ -40,7 +40,9 @@ func yamlReplacements() []struct {
 		mk   func() *yaml.Node
 	}{
 		{"null", func() *yaml.Node { return yamlScalar("!!null", "null") }},
-		{"empty-string", func() *yaml.Node { return &yaml.Node{Kind: yaml.ScalarNode, Tag: "!!str", Value: "", Style: yaml.DoubleQuotedStyle} }},
+		{"empty-string", func() *yaml.Node {
+			return &yaml.Node{Kind: yaml.ScalarNode, Tag: "!!str", Value: "", Style: yaml.DoubleQuotedStyle}
+		}},
 		{"0", func() *yaml.Node { return yamlScalar("!!int", "0") }},
 		{"-1", func() *yaml.Node { return yamlScalar("!!int", "-1") }},
 		{"1.5", func() *yaml.Node { return yamlScalar("!!float", "1.5") }},
